@@ -42,8 +42,11 @@ def _site(rng, npool, allow_complex=False, p_prior=0.55):
         return {"k": "p", "i": i}
     if r < 0.75:
         return {"k": "lin", "i": i, "a": float(rng.choice([2.0, 0.5, 3.25])), "b": float(rng.choice([0.0, 1.0, 0.25]))}
-    if r < 0.87:
+    if r < 0.84:
         return {"k": "sum", "i": i, "j": int(rng.integers(0, npool))}
+    if r < 0.93:
+        # a constant taken out of an array (a NumPy scalar) ON THE LEFT of a non-commutative operator: c - P, c / P
+        return {"k": ["rsub", "rdiv"][int(rng.integers(0, 2))], "i": i, "c": float(rng.choice([5.0, 7.5, 12.25]))}
     return {"k": "sqrt", "i": i}
 
 
@@ -198,6 +201,10 @@ def _build_site(s, pool):
         return s["a"] * pool[s["i"]] + s["b"]
     if k == "sum":
         return pool[s["i"]] + pool[s["j"]]
+    if k == "rsub":
+        return np.float64(s["c"]) - pool[s["i"]]
+    if k == "rdiv":
+        return np.array([s["c"], 1.0])[0] / pool[s["i"]]
     if k == "sqrt":
         return np.sqrt(pool[s["i"]])
     if k == "cplx":
@@ -220,6 +227,10 @@ def _eval_site(s, val):
         return s["a"] * val(s["i"]) + s["b"]
     if k == "sum":
         return val(s["i"]) + val(s["j"])
+    if k == "rsub":
+        return s["c"] - val(s["i"])
+    if k == "rdiv":
+        return s["c"] * (1.0 / val(s["i"]))
     if k == "sqrt":
         return float(np.sqrt(val(s["i"])))
     if k == "cplx":
@@ -229,7 +240,7 @@ def _eval_site(s, val):
 
 def _site_priors(s, acc):
     k = s["k"]
-    if k in ("p", "lin", "sqrt"):
+    if k in ("p", "lin", "sqrt", "rsub", "rdiv"):
         acc.append(s["i"])
     elif k == "sum":
         acc += [s["i"], s["j"]]
@@ -497,8 +508,20 @@ def _run_struct(case):
         values = [1.1 + 0.37 * float(perm[j]) + 0.01 * rep for j in range(len(names))]
         if rep == 2:
             # exact zeros are values like any other (integer 0 and float 0.0), for scatterer, theory and optics parameters alike
+            # (not for a prior that some site divides by: c / 0 has no value)
+            divisors = set()
+            def _divs(o):
+                if isinstance(o, dict):
+                    if o.get("k") == "rdiv":
+                        divisors.add(idx[o["i"]])
+                    for v_ in o.values():
+                        _divs(v_)
+                elif isinstance(o, list):
+                    for v_ in o:
+                        _divs(v_)
+            _divs(st); _divs(case.get("theory")); _divs(case.get("alpha")); _divs(case.get("optics"))
             for j in range(len(names)):
-                if rng.random() < 0.4:
+                if rng.random() < 0.4 and j not in divisors:
                     values[j] = [0.0, 0, -0.0][int(rng.integers(0, 3))]
         built = _check_placement(model, st, pool, index_of, values, "", resid, flags, witness)
         if case.get("theory"):
